@@ -342,6 +342,97 @@ func init() {
 		},
 	})
 
+	// S4: several senders competing for a write queue that holds one frame at a time.
+	vexp.Register(&vexp.Scenario{
+		Name: "c03.S4.senders-compete-for-write-queue", Prop: "C03",
+		Bounds: func(thorough bool) vexp.Bounds {
+			if thorough {
+				return vexp.Bounds{P: 2, F: 1, E: 0}
+			}
+			return vexp.Bounds{P: 1, F: 1, E: 0}
+		},
+		Configs: func(thorough bool) []map[string]int {
+			out := []map[string]int{{"writeq": 64, "rbuf": 4096, "wbuf": 4096, "nch": 3, "compress": 0}}
+			if thorough {
+				out = append(out, map[string]int{"writeq": 64, "rbuf": 16, "wbuf": 16, "nch": 3, "compress": 1}, map[string]int{"writeq": 64, "rbuf": 4096, "wbuf": 4096, "nch": 4, "compress": 0})
+			}
+			return out
+		},
+		MaxSteps: 100000,
+		Doc:      "real client and server connections, write queue of 64 bytes, 3..4 channels each sending three 2000-byte messages (every frame is larger than the queue, so the queue admits one frame at a time and the other senders wait for space and compete for it when the send loop drains it): every channel's receiver must get exactly its three messages in order",
+		Body: func(x *vexp.Ctx) {
+			nch := x.P("nch", 3)
+			c2s := make([]*c03dir, nch)
+			for i := range c2s {
+				c2s[i] = &c03dir{name: fmt.Sprintf("channel %d client->server", i)}
+			}
+			hDone := 0
+			handler := HandleFunc(func(ctx Context, ch Channel) status.Status {
+				rctx := async.NoContext()
+				idx := -1
+				for {
+					msg, st := ch.Receive(rctx)
+					if !st.OK() {
+						if idx >= 0 && st.Code == status.CodeEnd {
+							c2s[idx].drained = true
+						}
+						break
+					}
+					if idx < 0 {
+						idx = vPayloadChan(msg)
+						if idx < 0 || idx >= nch {
+							idx = 0
+						}
+					}
+					c2s[idx].got = append(c2s[idx].got, append([]byte{}, msg...))
+				}
+				hDone++
+				return status.OK
+			})
+			w := newWide(x, handler)
+			ctx := async.NoContext()
+			cDone := 0
+			for i := 0; i < nch; i++ {
+				i := i
+				vsched.GoNamed(fmt.Sprintf("client.ch%d", i), func() {
+					defer func() { cDone++ }()
+					ch, st := w.cli.Channel(ctx)
+					if !st.OK() {
+						c2s[i].sendFail = "channel: " + st.String()
+						return
+					}
+					for k := 0; k < 3; k++ {
+						p := vPayload(0, i, k, 2000+k)
+						c2s[i].sent = append(c2s[i].sent, p)
+						if st := ch.Send(ctx, p); !st.OK() {
+							c2s[i].sent = c2s[i].sent[:len(c2s[i].sent)-1]
+							c2s[i].sendFail = st.String()
+							break
+						}
+					}
+					ch.Free()
+				})
+			}
+			vsched.Join("clients and handlers done", func() bool { return cDone == nch && hDone == nch })
+			ngot := 0
+			for i := 0; i < nch; i++ {
+				c2s[i].check(x)
+				if c2s[i].sendFail != "" {
+					x.Fail("Send fails on a healthy connection: "+errSig(c2s[i].sendFail), "%s: %s", c2s[i].name, c2s[i].sendFail)
+				}
+				if !c2s[i].drained {
+					x.Fail("server receiver did not observe the end status", "%s", c2s[i].name)
+				}
+				ngot += len(c2s[i].got)
+			}
+			for _, e := range w.log.bad() {
+				x.Fail("error logged: "+errSig(e), "%s", e)
+			}
+			x.Outcome = fmt.Sprintf("delivered=%d/%d", ngot, 3*nch)
+			w.shutdown()
+		},
+	})
+
 	// S2: payload on the opening frame, on the closing frame, and SendAndClose on a never-opened channel (open+close batch).
 	vexp.Register(&vexp.Scenario{
 		Name: "c03.S2.open-close-payloads", Prop: "C03",
